@@ -1,7 +1,7 @@
 """C08 — option state persists across the build-directory lifecycle (DESIGN §2 C08).
 
 The property is a statement about command histories; what is decided here are the
-structural clauses R1..R5 of the design (decision tables of the -D/-U and the
+structural clauses R1..R7 of the design (decision tables of the -D/-U and the
 option-file-edit code, guarded-writer/ordering facts of setup/configure/wipe, and
 the per-subproject data dependence of the option file that is (re)loaded).
 """
@@ -33,7 +33,7 @@ EXPLANATION = (
     'reads the command line before deleting, restores in a finally inside the temporary directory scope; R4b in read_cmd_line_file the mapping assigned to options.cmd_line_options is merged from the recorded table and the current options with the current ones last (highest priority); R5a-c the option file '
     'handed to OptionInterpreter.process for a subproject is its recorded file / depends on per-subproject data, and the same '
     'subproject key is used for the interpreter, the store update and the recorded hash. '
-    'R2d the object installed for a redeclared option gets the parent link (parent/yielding) that add_project_option gives a new one; R5d every normal path of _load_option_file calls update_project_options for self.subproject, with no declarations when there is no option file. R6 in Environment every option writer fed from self.options (the initial sources) is unreachable when first_invocation is false. R4c every [properties] key read_cmd_line_file restores into options.K is recorded by write_cmd_line_file exactly when options.K is set (all worlds); R4d in MesonApp._generate the options object handed to Interpreter is dominated by read_cmd_line_file on it (or every caller merges into self.options). Does NOT decide: what set_option/set_value do with a value (e.g. whether set_option detaches a yielding option only when the value changes - C07 owns set_option); agreement with a reference model over command histories, nor what set_user_option/set_value accept.')
+    'R2d the object installed for a redeclared option gets the parent link (parent/yielding) that add_project_option gives a new one; R5d every normal path of _load_option_file calls update_project_options for self.subproject, with no declarations when there is no option file. R6 in Environment every option writer fed from self.options (the initial sources) is unreachable when first_invocation is false. R4c every [properties] key read_cmd_line_file restores into options.K is recorded by write_cmd_line_file exactly when options.K is set (all worlds); R4d in MesonApp._generate the options object handed to Interpreter is dominated by read_cmd_line_file on it (or every caller merges into self.options). R7 in the interpreter (func_project and the helpers it is split into) initialize_from_top_level_project_call is reached only on paths where first_invocation is known true, initialize_from_subproject_call(S, ..) only where first_invocation is known true or S is known to be missing from coredata.initialized_subprojects, and every normal path through it adds the same S to that set (gate key = initialised subproject = recorded key), so default_options are applied once per (sub)project. Does NOT decide: the precedence between the sources of one initial value (machine file < command line for prefix in first_handle_prefix) and the order in which the options of one command line are applied (buildtype before debug/optimization in parse_cmd_line_options) - C07 owns both; who else may remove entries of initialized_subprojects outside the interpreter; what set_option/set_value do with a value (e.g. whether set_option detaches a yielding option only when the value changes - C07 owns set_option); agreement with a reference model over command histories, nor what set_user_option/set_value accept.')
 ASSUMPTIONS = [
     'OptionStore.set_option(key, v) validates and stores v on the object currently in self.options[key]',
     'UserOption.set_value raises MesonException (and keeps the previous value) for an invalid value',
@@ -100,9 +100,10 @@ def _template_pieces(e: ast.AST) -> T.Optional[T.List[ast.AST]]:
 
 
 class _Normalise(ast.NodeTransformer):
-    def __init__(self, repo: T.Any, mod: Module):
+    def __init__(self, repo: T.Any, mod: Module, light: bool = False):
         self.repo = repo
         self.mod = mod
+        self.light = light      # resolve callees only in this module and in INDEX_MODULES (no other module is parsed for it)
         self._index: T.Optional[T.Dict[str, T.List[T.Tuple[ast.AST, bool]]]] = None
 
     # -- string templates -------------------------------------------------------------------
@@ -141,6 +142,9 @@ class _Normalise(ast.NodeTransformer):
             self._index = idx
         return self._index
 
+    def _may_load(self, dotted: str) -> bool:
+        return not self.light or dotted.replace('.', '/') + '.py' in INDEX_MODULES
+
     def _candidates(self, call: ast.Call) -> T.List[T.List[str]]:
         return [ps for _, ps in self._candidate_functions(call)]
 
@@ -153,13 +157,13 @@ class _Normalise(ast.NodeTransformer):
                 found = [(self.mod.func(f.id), False)]
             else:
                 origin = self.mod.imports().get(f.id)
-                if origin and '.' in origin:
+                if origin and '.' in origin and self._may_load(origin.rsplit('.', 1)[0]):
                     m2 = self.repo.module_by_dotted(origin.rsplit('.', 1)[0])
                     if m2 is not None and m2.has_func(origin.rsplit('.', 1)[1]):
                         found = [(m2.func(origin.rsplit('.', 1)[1]), False)]
         elif isinstance(f, ast.Attribute):
             base = attr_chain(f.value)
-            if base is not None and '.' not in base and base in self.mod.imports():
+            if base is not None and '.' not in base and base in self.mod.imports() and self._may_load(self.mod.imports()[base]):
                 m2 = self.repo.module_by_dotted(self.mod.imports()[base])
                 if m2 is not None and m2.has_func(f.attr):
                     found = [(m2.func(f.attr), False)]
@@ -484,6 +488,16 @@ def _statement_forms(fn: ast.AST) -> None:
         while i < len(block):
             st = block[i]
             new: T.Optional[T.List[ast.stmt]] = None
+            if isinstance(st, ast.AnnAssign) and st.value is not None and not isinstance(st.value, ast.IfExp):
+                # `x: T = e` executes exactly `x = e` (a local annotation is never evaluated)
+                block[i] = st = ast.fix_missing_locations(ast.copy_location(ast.Assign(targets=[st.target], value=st.value), st))
+            elif (isinstance(st, ast.AnnAssign) and st.value is None and isinstance(st.target, ast.Name)) \
+                    or (isinstance(st, ast.Expr) and isinstance(st.value, ast.Constant)):
+                # a bare declaration `x: T` binds nothing; a docstring / constant expression statement does nothing
+                if len(block) > 1:
+                    del block[i]
+                    continue
+                block[i] = st = ast.copy_location(ast.Pass(), st)
             if isinstance(st, ast.If) and not st.orelse and len(st.body) == 1 and isinstance(st.body[0], ast.Assign) and len(st.body[0].targets) == 1 \
                     and isinstance(st.body[0].targets[0], ast.Name) and st.body[0].targets[0].id in flags \
                     and isinstance(st.body[0].value, ast.Constant) and st.body[0].value.value is True \
@@ -569,6 +583,26 @@ def _m(ctx: RuleCtx, rel: str) -> Module:
             _statement_forms(f)
             _test_named_conditions(f.body)
         mod._parents = None
+    return mod
+
+
+def _m_funcs(ctx: RuleCtx, mod: Module, quals: T.Iterable[str]) -> Module:
+    """The per-function normal forms of `_m` applied to the named functions only (for a big module of which a rule reads a
+    few functions; the module-wide forms - named constants, constant tables - are not applied)."""
+    if getattr(mod, '_c08_normal', False):
+        return mod
+    done: T.Set[str] = mod.__dict__.setdefault('_c08_normal_funcs', set())
+    nrm = _Normalise(ctx.repo, mod, light=True)
+    for q in quals:
+        if q in done:
+            continue
+        done.add(q)
+        f = mod.func(q)
+        nrm.generic_visit(f)
+        _select_callee(f.body)
+        _statement_forms(f)
+        _test_named_conditions(f.body)
+    mod._parents = None  # type: ignore[attr-defined]
     return mod
 
 
@@ -2566,9 +2600,104 @@ def _unfold_list_comps(fn: ast.AST) -> None:
             i += 1
 
 
+def _pair_stores(fn: ast.AST) -> None:
+    """A local insertion-ordered dict that is used ONLY as a store of pairs is read as the list of 2-tuples it stands for
+    (on the analysed copy only):
+        X = {} / dict()                  ->  X = []
+        X[K] = V                         ->  X.append((K, V))
+        for T in X.items():              ->  for T in X:
+        for k in X: / X.keys(): ..X[k].. ->  for (k, k__value) in X: ..k__value..
+        for v in X.values():             ->  for (v__key, v) in X:
+    Closed world: every occurrence of X in the function must be one of these, otherwise nothing is rewritten (a keyed read, a
+    deletion or an escape of X makes it a real mapping).  The reading assumes what the list form cannot express anyway: the keys
+    stored are pairwise distinct (the rules check that the key is the loop item of the storing loop)."""
+    pm = _parent_map(fn)
+    by_name: T.Dict[str, T.List[ast.Name]] = {}
+    for n in ast.walk(fn):
+        if isinstance(n, ast.Name):
+            by_name.setdefault(n.id, []).append(n)
+    for name, occs in by_name.items():
+        inits: T.List[ast.Assign] = []
+        stores: T.List[ast.Assign] = []
+        loops: T.List[T.Tuple[ast.For, str]] = []
+        reads: T.List[ast.Subscript] = []
+        ok = True
+        for n in occs:
+            par, field = pm.get(n, (None, ''))
+            if isinstance(n.ctx, ast.Store):
+                v = par.value if isinstance(par, ast.Assign) and len(par.targets) == 1 and par.targets[0] is n else None
+                if (isinstance(v, ast.Dict) and not v.keys) or (isinstance(v, ast.Call) and isinstance(v.func, ast.Name) and v.func.id == 'dict'
+                                                                  and not v.args and not v.keywords):
+                    inits.append(par)  # type: ignore[arg-type]
+                    continue
+                ok = False
+                break
+            if isinstance(par, ast.Subscript) and field == 'value':
+                gp, gfield = pm.get(par, (None, ''))
+                if isinstance(par.ctx, ast.Store) and isinstance(gp, ast.Assign) and len(gp.targets) == 1 and gp.targets[0] is par \
+                        and name not in names_in(par.slice) and name not in names_in(gp.value):
+                    stores.append(gp)
+                    continue
+                if isinstance(par.ctx, ast.Load) and isinstance(par.slice, ast.Name):
+                    reads.append(par)
+                    continue
+            if isinstance(par, ast.For) and field == 'iter':
+                loops.append((par, 'keys'))
+                continue
+            if isinstance(par, ast.Attribute) and par.attr in ('items', 'keys', 'values'):
+                gp, gfield = pm.get(par, (None, ''))
+                ggp, ggfield = pm.get(gp, (None, '')) if gp is not None else (None, '')
+                if isinstance(gp, ast.Call) and gfield == 'func' and not gp.args and not gp.keywords and isinstance(ggp, ast.For) and ggfield == 'iter':
+                    loops.append((ggp, par.attr))
+                    continue
+            ok = False
+            break
+        if not ok or not inits or not stores or not loops:
+            continue
+        # every keyed read must be `X[k]` inside a loop `for k in X` whose body does not rebind k
+        sub: T.Dict[int, ast.Name] = {}
+        for rd in reads:
+            host = next((l for l, kind in loops if kind == 'keys' and isinstance(l.target, ast.Name) and l.target.id == rd.slice.id  # type: ignore[attr-defined]
+                         and any(x is rd for b in l.body for x in ast.walk(b))
+                         and not any(isinstance(x, ast.Name) and x.id == l.target.id and isinstance(x.ctx, (ast.Store, ast.Del))
+                                     for b in l.body for x in ast.walk(b))), None)
+            if host is None:
+                ok = False
+                break
+            sub[id(rd)] = ast.Name(id=host.target.id + '__value', ctx=ast.Load())  # type: ignore[attr-defined]
+        if not ok or any(kind != 'items' and not isinstance(l.target, ast.Name) for l, kind in loops):
+            continue
+        for a in inits:
+            a.value = ast.copy_location(ast.List(elts=[], ctx=ast.Load()), a.value)
+        for l, kind in loops:
+            l.iter = ast.copy_location(ast.Name(id=name, ctx=ast.Load()), l.iter)
+            if kind == 'keys':
+                l.target = ast.copy_location(ast.Tuple(elts=[l.target, ast.Name(id=l.target.id + '__value', ctx=ast.Store())], ctx=ast.Store()), l.target)  # type: ignore[attr-defined]
+            elif kind == 'values':
+                l.target = ast.copy_location(ast.Tuple(elts=[ast.Name(id=l.target.id + '__key', ctx=ast.Store()), l.target], ctx=ast.Store()), l.target)  # type: ignore[attr-defined]
+            ast.fix_missing_locations(l.target)
+        for rd in reads:
+            par, field = pm[rd]
+            new = ast.copy_location(sub[id(rd)], rd)
+            cur = getattr(par, field)
+            if isinstance(cur, list):
+                cur[cur.index(rd)] = new
+            else:
+                setattr(par, field, new)
+        for s in stores:
+            par, field = pm[s]
+            tgt = T.cast(ast.Subscript, s.targets[0])
+            app = ast.Expr(value=ast.Call(func=ast.Attribute(value=ast.Name(id=name, ctx=ast.Load()), attr='append', ctx=ast.Load()),
+                                          args=[ast.Tuple(elts=[tgt.slice, s.value], ctx=ast.Load())], keywords=[]))
+            ast.fix_missing_locations(ast.copy_location(app, s))
+            blk = getattr(par, field)
+            blk[blk.index(s)] = app
+
+
 def _r4_analyse(fn: ast.AST, qn: str) -> _R4Result:
     res = _R4Result()
     _unfold_list_comps(fn)
+    _pair_stores(fn)
     pm = _parent_map(fn)
     cfg = CFG(fn)  # type: ignore[arg-type]
     params = _pos_params(fn)
@@ -3428,6 +3557,295 @@ def r6(ctx: RuleCtx) -> None:
         raise Undecided('Environment: no option writer replaying self.options found (written differently?)')
 
 
+# ---------------------------------------------------------------------------
+# C08.R7  interpreter: the project()/subproject() default options are applied once per (sub)project
+#
+# `initialize_from_top_level_project_call` / `initialize_from_subproject_call(S, ..)` write the *initial* option sources
+# (default_options of project() and subproject(), machine files, command line) into the store.  On a reconfigure they must not
+# run again for a (sub)project that has been initialised before: they would put the defaults back over what the user has done
+# since (a dropped override comes back, a changed default_options replaces the value the option was created with).  The memory
+# of "initialised before" is the persisted set coredata.initialized_subprojects, so three things have to agree on ONE key S:
+# the membership test that opens the gate, the subproject the initialiser is called for, and the key recorded afterwards.
+
+INTERPRETER = 'mesonbuild/interpreter/interpreter.py'
+INIT_SUB, INIT_TOP = 'initialize_from_subproject_call', 'initialize_from_top_level_project_call'
+_R7_WORDS = ('first_invocation', 'initialized_subprojects')
+_R7_FIRST = __import__('re').compile(r'[\w.]+\.first_invocation\Z')
+
+
+def _inline_pure_predicates(mod: Module, cls: T.Optional[str], fn: ast.AST) -> None:
+    """`self.p()` where p is an undecorated method of the class whose body is the single statement `return E`, E call-free and
+    reading nothing but `self.…`  ->  E (so `self.is_subproject()` and `self.subproject != ''` are the same atom)."""
+    if cls is None or not mod.has_cls(cls):
+        return
+    meths = mod.methods(cls)
+
+    class P(ast.NodeTransformer):
+        def visit_Call(self, node: ast.Call) -> ast.AST:
+            self.generic_visit(node)
+            f = node.func
+            if isinstance(f, ast.Attribute) and isinstance(f.value, ast.Name) and f.value.id == 'self' and not node.args and not node.keywords:
+                m = meths.get(f.attr)
+                body = [s for s in (m.body if m is not None else []) if not (isinstance(s, ast.Expr) and isinstance(s.value, ast.Constant)) and not isinstance(s, ast.Pass)]
+                if m is not None and not m.decorator_list and len(body) == 1 and isinstance(body[0], ast.Return) and body[0].value is not None:
+                    e = body[0].value
+                    if not any(isinstance(x, (ast.Call, ast.NamedExpr, ast.Lambda, ast.Await)) for x in ast.walk(e)) and names_in(e) <= {'self'}:
+                        return ast.copy_location(copy.deepcopy(e), node)
+            return node
+    P().visit(fn)
+
+
+def _r7_relevant(n: ast.AST) -> bool:
+    for x in walk_no_nested(n):
+        if isinstance(x, ast.Return) or (isinstance(x, ast.Attribute) and x.attr in _R7_WORDS) or (isinstance(x, ast.Call) and call_method(x) in (INIT_SUB, INIT_TOP)):
+            return True
+    return False
+
+
+def _r7_slice(stmts: T.List[ast.stmt]) -> T.List[ast.stmt]:
+    """The statements that can matter for the gate: those containing an initialiser call, a read/write of first_invocation or
+    initialized_subprojects, or a `return` (which may skip the record); compound statements are kept with their headers and
+    sliced recursively.  Statements that only raise are dropped: an aborted configuration persists nothing."""
+    out: T.List[ast.stmt] = []
+    for st in stmts:
+        if isinstance(st, (ast.FunctionDef, ast.AsyncFunctionDef, ast.ClassDef)) or not _r7_relevant(st):
+            continue
+        if not any(isinstance(getattr(st, f, None), list) and getattr(st, f) and isinstance(getattr(st, f)[0], (ast.stmt, ast.ExceptHandler))
+                   for f in ('body', 'orelse', 'finalbody', 'handlers')):
+            out.append(st)
+            continue
+        st = copy.copy(st)
+        for f in ('body', 'orelse', 'finalbody'):
+            sub = getattr(st, f, None)
+            if isinstance(sub, list) and sub and isinstance(sub[0], ast.stmt):
+                new = _r7_slice(sub)
+                setattr(st, f, new if new or f != 'body' else [ast.copy_location(ast.Pass(), sub[0])])
+        if isinstance(st, ast.Try):
+            hs = []
+            for h in st.handlers:
+                h = copy.copy(h)
+                h.body = _r7_slice(h.body) or [ast.copy_location(ast.Pass(), h.body[0])]
+                hs.append(h)
+            st.handlers = hs
+        out.append(st)
+    return out
+
+
+def _r7_record_of(st: ast.AST, defs: T.Dict[str, ast.AST]) -> T.Optional[T.Tuple[str, T.List[str]]]:
+    """('add' | 'drop' | 'unknown', keys) when the statement changes X.initialized_subprojects, else None."""
+    def is_set(e: ast.AST) -> bool:
+        return (attr_chain(_subst(e, defs)) or '').endswith('.initialized_subprojects')
+
+    def keys_of(e: ast.AST) -> T.Optional[T.List[str]]:
+        if isinstance(e, (ast.Set, ast.List, ast.Tuple)) and not any(isinstance(x, ast.Starred) for x in e.elts):
+            return [norm(_subst(x, defs)) for x in e.elts]
+        return None
+    if isinstance(st, ast.Expr) and isinstance(st.value, ast.Call) and isinstance(st.value.func, ast.Attribute) and is_set(st.value.func.value):
+        c = st.value
+        meth = c.func.attr  # type: ignore[attr-defined]
+        if meth == 'add' and len(c.args) == 1 and not c.keywords:
+            return 'add', [norm(_subst(c.args[0], defs))]
+        if meth == 'update' and len(c.args) == 1 and not c.keywords and keys_of(c.args[0]) is not None:
+            return 'add', T.cast(T.List[str], keys_of(c.args[0]))
+        if meth in ('discard', 'remove') and len(c.args) == 1:
+            return 'drop', [norm(_subst(c.args[0], defs))]
+        if meth in ('clear', 'pop', 'difference_update', 'intersection_update', 'symmetric_difference_update'):
+            return 'drop', ['*']
+        return 'unknown', []
+    if isinstance(st, ast.AugAssign) and is_set(st.target):
+        ks = keys_of(st.value)
+        if isinstance(st.op, ast.BitOr) and ks is not None:
+            return 'add', ks
+        return ('drop', ['*']) if isinstance(st.op, (ast.Sub, ast.BitAnd, ast.BitXor)) else ('unknown', [])
+    if isinstance(st, (ast.Assign, ast.AnnAssign, ast.Delete)):
+        tg = st.targets if isinstance(st, (ast.Assign, ast.Delete)) else [st.target]
+        if any(is_set(t) for t in tg if isinstance(t, ast.Attribute)):
+            v = getattr(st, 'value', None)
+            if isinstance(v, ast.BinOp) and isinstance(v.op, ast.BitOr) and is_set(v.left) and keys_of(v.right) is not None:
+                return 'add', T.cast(T.List[str], keys_of(v.right))
+            return 'unknown', []
+    return None
+
+
+def _r7_analyse(fn: ast.AST, qn: str) -> T.Tuple[T.List[str], T.List[T.Tuple[str, str, ast.AST]], T.Dict[str, int]]:
+    oks: T.List[str] = []
+    bad: T.Dict[T.Tuple[str, str], ast.AST] = {}
+    counts = {INIT_SUB: 0, INIT_TOP: 0, 'records': 0}
+    defs = {k: v for k, v in _single_defs(fn).items() if _transparent(v) and not isinstance(v, (ast.List, ast.Dict, ast.Set, ast.ListComp, ast.Constant))}
+    for _ in range(3):
+        defs = {k: _subst(v, {k2: v2 for k2, v2 in defs.items() if k2 != k}) for k, v in defs.items()}
+    # copy propagation first (unique reaching definition of a call-free expression): `sub = self.subproject`, `done = X.initialized_subprojects`
+    # must be the same atoms / the same set as the spelled-out forms, for the slice as well as for the path conditions
+    _Sub(defs).visit(fn)
+    body = _r7_slice(fn.body)  # type: ignore[attr-defined]
+    ps = [p for p in paths.enumerate_paths(body, max_paths=4000) if p.outcome != 'raise']
+    good_sites: T.Dict[int, ast.Call] = {}
+    bad_sites: T.Set[int] = set()
+    sites: T.Dict[int, str] = {}
+    for p in ps:
+        first: T.Optional[bool] = None                  # what the path knows about first_invocation
+        absent: T.Set[str] = set()                      # keys known not to be in initialized_subprojects
+        pending: T.List[T.Tuple[str, ast.Call]] = []    # subprojects initialised on this path and not recorded yet
+        wrong: T.List[str] = []
+        recorded: T.Set[str] = set()                    # keys added to initialized_subprojects so far on this path
+        for ev in p.events:
+            if ev.kind == 'cond':
+                e = _subst(ev.node, defs)
+                if not any(isinstance(x, ast.Attribute) and x.attr in _R7_WORDS for x in ast.walk(e)):
+                    continue
+                a, v = tables.canon(e, ev.val)
+                if a.kind == 'truth' and _R7_FIRST.match(a.args[0]):
+                    first = v
+                elif a.kind == 'in' and a.args[1].endswith('.initialized_subprojects'):
+                    if not v:
+                        absent.add(a.args[0])
+                else:
+                    raise Undecided(f'{qn}: test on first_invocation / initialized_subprojects not understood: {short(ev.node)}')
+                continue
+            node = ev.node.iter if ev.kind == 'iter' else ev.node  # type: ignore[union-attr]
+            if node is None or ev.kind == 'exc':
+                continue
+            roots = [i.context_expr for i in node.items] if ev.kind == 'with' else [node]  # type: ignore[union-attr]
+            for c in [c for r in roots for c in walk_no_nested(r) if isinstance(c, ast.Call) and call_method(c) in (INIT_SUB, INIT_TOP)]:
+                kind = call_method(c)
+                if c.keywords or any(isinstance(x, ast.Starred) for x in c.args) or (kind == INIT_SUB and not c.args):
+                    raise Undecided(f'{qn}: `{short(c, 70)}`: arguments not understood')
+                key = norm(_subst(c.args[0], defs)) if kind == INIT_SUB else ''
+                sites[id(c)] = kind or ''
+                if first is True or (kind == INIT_SUB and key in absent):
+                    good_sites.setdefault(id(c), c)
+                else:
+                    bad_sites.add(id(c))
+                    if kind == INIT_SUB:
+                        other = sorted(absent)
+                        bad.setdefault((f'{INIT_SUB}: reached without the first-run / not-yet-initialised gate',
+                                        f'`{short(c, 60)}` is reached on the path `{short(p.describe(), 150)}` where neither first_invocation is known true nor '
+                                        f'`{key}` is known to be missing from initialized_subprojects' + (f' (the membership test is on `{other[0]}`)' if other else '') +
+                                        ': a reconfigure applies the default_options of project()/subproject() again to a subproject that was initialised before, '
+                                        'over what the user has changed since (e.g. an override dropped with -U comes back)'), c)
+                    else:
+                        bad.setdefault((f'{INIT_TOP}: reached when first_invocation is not known true',
+                                        f'`{short(c, 60)}` is reached on the path `{short(p.describe(), 150)}` where first_invocation is not known true: a reconfigure '
+                                        'applies the project() default_options again over the values the options have'), c)
+                if kind == INIT_SUB and key not in recorded:     # (recording first and initialising next is the same on every normal path)
+                    pending.append((key, c))
+            rec = _r7_record_of(node, defs) if ev.kind == 'stmt' else None
+            if rec is not None:
+                what, keys = rec
+                if what == 'unknown':
+                    raise Undecided(f'{qn}: `{short(node, 70)}` changes initialized_subprojects in a way that is not understood')
+                if what == 'add':
+                    counts['records'] += 1
+                    recorded.update(keys)
+                    if pending and not any(k == pk for pk, _ in pending for k in keys):
+                        wrong.extend(keys)
+                    pending = [(pk, c) for pk, c in pending if pk not in keys]
+                else:
+                    raise Undecided(f'{qn}: `{short(node, 70)}` removes entries of initialized_subprojects; not understood')
+        for key, c in pending:
+            bad_sites.add(id(c))
+            bad.setdefault((f'{INIT_SUB}: the initialised subproject is not recorded in initialized_subprojects',
+                            f'after `{short(c, 60)}` the path `{short(p.describe(), 150)}` ends without adding `{key}` to initialized_subprojects' +
+                            (f' (it records `{wrong[0]}`)' if wrong else '') + ': the subproject is not remembered as initialised, so every reconfigure applies its '
+                            'project()/subproject() default_options again (an override dropped with -U comes back)'), c)
+    for i, c in good_sites.items():
+        if i not in bad_sites:
+            oks.append(f'{qn}: `{short(c, 60)}` runs only ' + ('on the first invocation' if call_method(c) == INIT_TOP else
+                                                              'on the first invocation or for a subproject not yet in initialized_subprojects, and records it afterwards'))
+    for k in sites.values():
+        counts[k] += 1
+    return oks, [(c, m, n) for (c, m), n in bad.items()], counts
+
+
+_R7_EXAMPLE = '''
+def func_project(self, node, args, kwargs):
+    if self.environment.first_invocation or self.subproject not in self.coredata.initialized_subprojects:
+        self.coredata.optstore.initialize_from_subproject_call(self.subproject, a, b, c, d)
+        self.coredata.initialized_subprojects.add(self.subproject_dir)
+'''
+
+
+def r7(ctx: RuleCtx) -> None:
+    _, exbad, _ = _r7_analyse(ast.parse(_R7_EXAMPLE).body[0], 'example')
+    if not any('not recorded' in c for c, _, _ in exbad):
+        raise AnalysisError('C08.R7: built-in positive example (another key recorded than the one initialised) was not flagged')
+    mod = ctx.repo.module(INTERPRETER)
+    funcs = {q: f for q, f in mod.funcs().items() if '#' not in q}
+    cls_of = lambda q: q.rsplit('.', 1)[0] if '.' in q else ''  # noqa: E731
+    # one pass over the module: which function reads/writes the gate's state, calls an initialiser, calls which same-class method
+    spans = sorted(((f.lineno, f.end_lineno or f.lineno, q) for q, f in funcs.items()), key=lambda t: t[1] - t[0])
+    owner_cache: T.Dict[int, T.Optional[str]] = {}
+
+    def owner(line: int) -> T.Optional[str]:
+        if line not in owner_cache:
+            owner_cache[line] = next((q for a_, b_, q in spans if a_ <= line <= b_), None)
+        return owner_cache[line]
+    direct: T.List[str] = []
+    touching: T.Set[str] = set()
+    self_calls: T.Dict[str, T.Set[str]] = {}
+    name_calls: T.Dict[str, T.Set[str]] = {}      # calls of module-level functions
+    for n in ast.walk(mod.tree):
+        if isinstance(n, ast.Attribute) and n.attr in _R7_WORDS:
+            q = owner(n.lineno)
+            if q:
+                touching.add(q)
+        elif isinstance(n, ast.Call) and isinstance(n.func, ast.Attribute):
+            q = owner(n.lineno)
+            if q is None:
+                continue
+            if n.func.attr in (INIT_SUB, INIT_TOP):
+                touching.add(q)
+                if q not in direct:
+                    direct.append(q)
+            elif isinstance(n.func.value, ast.Name) and n.func.value.id in ('self', 'cls', cls_of(q)):
+                self_calls.setdefault(q, set()).add(n.func.attr)
+        elif isinstance(n, ast.Call) and isinstance(n.func, ast.Name) and n.func.id in funcs:
+            q = owner(n.lineno)
+            if q:
+                name_calls.setdefault(q, set()).add(n.func.id)
+    if not direct:
+        raise Undecided(f'{INTERPRETER}: no call of {INIT_SUB} / {INIT_TOP} found (written differently?)')
+
+    def callers_of(q: str) -> T.List[str]:
+        if not cls_of(q):
+            return [g for g in name_calls if g != q and q in name_calls[g]]
+        return [g for g in self_calls if g != q and cls_of(g) == cls_of(q) and q.rsplit('.', 1)[-1] in self_calls[g]]
+    # analyse each initialiser where its gate is: in the function itself, or in the same-class caller the helper is inlined into
+    roots: T.List[str] = []
+    involved: T.Set[str] = set(direct)        # functions on a call chain root -> initialiser, and those touching the gate's state
+    for q in direct:
+        level = [q]
+        for _ in range(3):
+            nxt = [g for x in level for g in callers_of(x)]
+            if not nxt:
+                break
+            involved.update(nxt)
+            level = nxt
+        for r in level:
+            if r not in roots:
+                roots.append(r)
+    involved |= {q for q in touching if cls_of(q) in {cls_of(r) for r in roots} | {''}}
+    _m_funcs(ctx, mod, sorted(involved))
+    total = {INIT_SUB: 0, INIT_TOP: 0, 'records': 0}
+    for qn in roots:
+        others = {q.rsplit('.', 1)[-1] for q in funcs if cls_of(q) in (cls_of(qn), '') and q not in involved}
+        fn = copy.deepcopy(_inlined(mod, qn, others))      # helpers that cannot matter stay opaque calls
+        _inline_pure_predicates(mod, qn.rsplit('.', 1)[0] if '.' in qn else None, fn)
+        oks, bad, counts = _r7_analyse(fn, qn)
+        if qn not in direct and counts[INIT_SUB] + counts[INIT_TOP] == 0:
+            raise Undecided(f'{qn}: calls a helper that applies the initial option sources in a way that could not be read in place')
+        for k in total:
+            total[k] += counts.get(k, 0)
+        for o in oks:
+            ctx.ok(o)
+        for c, m, node in bad:
+            ctx.violation(mod, qn, c, m, node)
+    for k in (INIT_SUB, INIT_TOP):
+        if total[k] == 0:
+            raise Undecided(f'{INTERPRETER}: no reachable call of {k} on a normal path (written differently?)')
+    ctx.note(f'initialiser call sites read: {total[INIT_SUB]} subproject, {total[INIT_TOP]} top-level; roots: {", ".join(roots)}')
+
+
 RULES = [
     Rule('C08.R1', '-D/-U decision table of set_from_configure_command', r1),
     Rule('C08.R1b', 'cmd_line.txt: -D recorded as str(value), -U (value is None) erases', r1b),
@@ -3448,4 +3866,5 @@ RULES = [
     Rule('C08.R5c', 'interpreter: option file comes from the subproject directory', r5c),
     Rule('C08.R6', 'environment: initial option sources are replayed on the first invocation only', r6),
     Rule('C08.R5d', 'interpreter: the store is updated for the subproject also when there is no option file', r5d),
+    Rule('C08.R7', 'interpreter: project()/subproject() default options are applied once per (sub)project', r7),
 ]
